@@ -1,4 +1,5 @@
 mod props;
+mod caps;
 mod mutate;
 mod refcbor;
 mod reqmodel;
